@@ -148,7 +148,7 @@ def r3_rewrites_truncate(ctx):
 
 def r3b_db_rewrite_replaces_rows(ctx):
     ws = ctx.ws
-    r = ctx.rule("C01-R3b", "a whole-vault rewrite in the database removes the folder's old secret rows before inserting the new ones",
+    r = ctx.rule("C01-R3b", "a whole-vault rewrite in the database removes the folder's old secret rows before inserting the new ones and rewrites the folder row",
                  floor=1, kind="K2 ordering")
     fns = [f for f in ws.fns.values() if re.search(r"FolderEntity.*::upsert_folder_and_secrets$", f.root)]
     if not fns:
@@ -199,6 +199,44 @@ def r3b_db_rewrite_replaces_rows(ctx):
                 r.ok(k, cfg.loc(b, dels[0]), "delete_all_secrets dominates every insert", work=len(live))
         if not seen:
             r.anchor_missing("insert calls in replace_all_secrets")
+    # a whole-vault replacement also carries a new name, flags and description (a
+    # forced merge replays another device's log): the folder row is rewritten by
+    # replace_all_secrets itself or by the function that calls it
+    ROW = {"update_folder", "insert_folder", "upsert_folder_and_secrets"}
+    PARTS = {"update_name", "update_flags", "update_meta"}
+    def names_of(fn):
+        out = set()
+        for b in fn.bodies:
+            out |= {cname(t) for _i, t in idioms.real_calls(b, cfg.live_blocks(b))}
+        return out
+    inner = set()
+    for f2 in rep:
+        inner |= names_of(f2)
+    ncall = 0
+    for g in ws.fns.values():
+        if g in rep:
+            continue
+        gn = names_of(g)
+        if "replace_all_secrets" not in gn:
+            continue
+        hit = False
+        for b in g.bodies:
+            for _i, t in idioms.real_calls(b, cfg.live_blocks(b)):
+                if cname(t) == "replace_all_secrets" and "FolderEntity" in (t.get("path") or t.get("func") or str(t)):
+                    hit = True
+        if not hit:
+            continue
+        ncall += 1
+        have = inner | gn
+        k = g.root + "|folder-row-rewritten"
+        if have & ROW or PARTS <= have:
+            r.ok(k, cfg.loc(g.bodies[0]), "the folder row is rewritten with the secret rows (%s)" % sorted(have & (ROW | PARTS)), work=len(have))
+        else:
+            r.violation(k, cfg.loc(g.bodies[0]),
+                        "the database mirror of a whole-vault replacement rewrites the secret rows but not the folder row: name, flags and description of the stored folder stay as they were while log and memory show the replaced ones",
+                        work=len(have))
+    if rep and ncall == 0:
+        r.anchor_missing("callers of FolderEntity::replace_all_secrets")
 
 
 PARTIAL_IO_OK = {
